@@ -271,6 +271,8 @@ class Harness(object):
                 out.append((('open', w['opened']), cost))
             if drops:
                 out.append((('dropview', -1), cost))
+            if self.cfg.get('clear') and not w.get('cleared') and hasattr(w['view'], 'clearcache'):
+                out.append((('clear', -1), 0))     # the public clearcache(), once, at any point
         return out
 
     def apply(self, w, ev):
@@ -301,6 +303,11 @@ class Harness(object):
                 if obs == ('exc', 'Boom'):
                     w['boomed'] = True
             w['last'] = i
+        elif kind == 'clear':
+            w['cleared'] = True
+            w['view'].clearcache()
+            gc.collect()
+            obs = ('cleared',)
         elif kind == 'drop':
             del w['its'][i]
             gc.collect()
@@ -407,6 +414,17 @@ def _cfgs(tier):
     for name in (() if quick else ('join', 'distinct', 'aggregate(multi)', 'mergesort', 'complement', 'unique')):
         out.append({'op': name, 'n': 2, 'b': 1, 'cache': True, 'fail': None, 'k': 3, 'warm': 'cold',
                     'bound': 2, 'alphabet': 'opennext', 'cfgdefault': False})
+    # clearcache() while iterators served from the file cache are alive: whoever finishes first must not take the
+    # chunk files away from the others
+    for name in ('sort(x)', 'sort(reverse)'):
+        for warm in ('cold', 'afterfull'):
+            out.append({'op': name, 'n': 2, 'b': 1, 'cache': True, 'fail': None, 'k': 2, 'warm': warm,
+                        'bound': 2 if quick else None, 'alphabet': 'opennext', 'clear': True})
+        if not quick:
+            out.append({'op': name, 'n': 2, 'b': 1, 'cache': True, 'fail': None, 'k': 3, 'warm': 'afterfull',
+                        'bound': 2, 'alphabet': 'opennext', 'clear': True})
+            out.append({'op': name, 'n': 2, 'b': 1, 'cache': True, 'fail': None, 'k': 2, 'warm': 'afterfull',
+                        'bound': 1, 'clear': True})
     # rows sharing one cell object: passes served from the chunk / spill files must read every row back
     for name in ('sort', 'sort(x)', 'fromdicts(gen)', 'fromdicts(gen,header)', 'join', 'distinct'):
         for warm in ('cold', 'afterfull'):
@@ -459,7 +477,7 @@ def cost(item):
 
 def bounds(tier, seed):
     return {'operators': list(OPS), 'iterators': '<=2 all interleavings; 3 with deviation bound',
-            'nrows': '0..2 quick, 0..3 thorough', 'buffersize': '1..n+1', 'failure_kinds': 'source raises at row f (every pass); a row that cannot be pickled (chunk write fails)', 'events': 'open/next/drop/dropview'}
+            'nrows': '0..2 quick, 0..3 thorough', 'buffersize': '1..n+1', 'failure_kinds': 'source raises at row f (every pass); a row that cannot be pickled (chunk write fails)', 'events': 'open/next/drop/dropview; clearcache() once in the clear configurations'}
 
 
 def run_item(item, acc):
